@@ -509,6 +509,28 @@ class _RsReturn(Exception):
         self.v = v
 
 
+class RsRef:
+    """&mut place: (container dict/list, key)"""
+    __slots__ = ("box", "key")
+
+    def __init__(self, box: Any, key: Any):
+        self.box, self.key = box, key
+
+    def get(self) -> Any:
+        return self.box[self.key]
+
+    def set(self, v: Any) -> None:
+        self.box[self.key] = v
+
+
+class _RsBreak(Exception):
+    pass
+
+
+class _RsContinue(Exception):
+    pass
+
+
 class RsInterp:
     """Folds a *pure* Rust fn body for concrete arguments: let, if/else, match on
     literals/ranges/paths/tuples with guards, casts, arithmetic, Some/None, tuples,
@@ -518,6 +540,13 @@ class RsInterp:
         self.prog = prog
         self.rel = prog.file_for(file_suffix)
         self.suffix = file_suffix
+
+    def _write_back(self, outer: dict, inner: dict, pat: dict) -> None:
+        """Assignments made inside an arm / if-let body to variables of the enclosing scope persist."""
+        bound = {n["name"] for n in walk(pat) if n.get("k") == "p_ident"}
+        for k_ in list(outer.keys()):
+            if k_ in inner and k_ not in bound:
+                outer[k_] = inner[k_]
 
     def mcall_hook(self, recv: Any, m: str, args: list, env: dict, e: dict) -> Any:
         return NotImplemented
@@ -551,7 +580,7 @@ class RsInterp:
                 last = None
             elif k == "expr_stmt":
                 v = self.ev(st["e"], env)
-                last = None if st.get("semi") else v
+                last = None if st.get("semi") or st["e"].get("k") in ("for", "while", "loop", "assign", "opassign") else v
             elif k == "item_stmt":
                 continue
             else:
@@ -620,7 +649,10 @@ class RsInterp:
             if c.get("k") == "let_cond":
                 env2 = dict(env)
                 if self.bind(c["pat"], self.ev(c["e"], env), env2):
-                    return self.block(e["then"], env2)
+                    try:
+                        return self.block(e["then"], env2)
+                    finally:
+                        self._write_back(env, env2, c["pat"])
                 return self.ev(e["else"], env) if e.get("else") else None
             if self.ev(c, env):
                 return self.block(e["then"], env)
@@ -632,16 +664,68 @@ class RsInterp:
                 if self.bind(arm["pat"], v, env2):
                     if arm.get("guard") is not None and not self.ev(arm["guard"], env2):
                         continue
-                    return self.ev(arm["body"], env2)
+                    try:
+                        return self.ev(arm["body"], env2)
+                    finally:
+                        self._write_back(env, env2, arm["pat"])
             raise NotConst("non-exhaustive match while folding")
         if k == "return":
             raise _RsReturn(self.ev(e["e"], env) if e.get("e") else None)
+        if k == "for":
+            it = self.ev(e["iter"], env)
+            n_it = 0
+            for item in list(it):
+                n_it += 1
+                if n_it > 100000:
+                    raise NotConst("loop bound")
+                if not self.bind(e["pat"], item, env):
+                    raise NotConst("for pattern did not match")
+                try:
+                    self.block(e["body"], env)
+                except _RsContinue:
+                    continue
+                except _RsBreak:
+                    break
+            return None
+        if k == "while":
+            n_it = 0
+            while True:
+                c = e["cond"]
+                if c.get("k") == "let_cond":
+                    if not self.bind(c["pat"], self.ev(c["e"], env), env):
+                        break
+                elif not self.ev(c, env):
+                    break
+                n_it += 1
+                if n_it > 100000:
+                    raise NotConst("loop bound")
+                try:
+                    self.block(e["body"], env)
+                except _RsContinue:
+                    continue
+                except _RsBreak:
+                    break
+            return None
+        if k == "break":
+            raise _RsBreak()
+        if k == "continue":
+            raise _RsContinue()
+        if k == "closure":
+            return ("closure", e, env)
+        if k == "index":
+            base = self.ev(e["e"], env)
+            idx = self.ev(e["i"], env)
+            if isinstance(base, RsRef):
+                base = base.get()
+            return base[idx]
         if k == "matches":
             env2 = dict(env)
             ok = self.bind(e["pat"], self.ev(e["e"], env), env2)
             return bool(ok and (e.get("guard") is None or self.ev(e["guard"], env2)))
         if k == "unary":
             v = self.ev(e["e"], env)
+            if e["op"] == "*" and isinstance(v, RsRef):
+                return v.get()
             if e["op"] == "*" and isinstance(v, tuple) and v and v[0] == "some":
                 return v[1]
             return {"-": lambda: -v, "!": lambda: (not v) if isinstance(v, bool) else ~v, "*": lambda: v}[e["op"]]()
@@ -670,10 +754,23 @@ class RsInterp:
             elif hasattr(v, "bits") and ty in _INT_TYPES and ty.startswith("u"):
                 v = v & ((1 << min(_INT_TYPES[ty], 40)) - 1)
             return v
+        if k == "let_cond":
+            return self.bind(e["pat"], self.ev(e["e"], env), env)
         if k == "tuple":
             return tuple(self.ev(x, env) for x in e["elems"])
         if k == "ref":
-            return self.ev(e["e"], env)
+            inner = e["e"]
+            if e.get("mut") and inner.get("k") == "field":
+                box = self.ev(inner["e"], env)
+                if isinstance(box, RsRef):
+                    box = box.get()
+                if isinstance(box, dict):
+                    return RsRef(box, inner["name"])
+            if e.get("mut") and inner.get("k") == "index":
+                box = self.ev(inner["e"], env)
+                if isinstance(box, (list, dict)):
+                    return RsRef(box, self.ev(inner["i"], env))
+            return self.ev(inner, env)
         if k == "call":
             f = e["f"]
             if f.get("k") == "path":
@@ -684,6 +781,10 @@ class RsInterp:
                     return hooked
                 if p == "Some":
                     return ("some", args[0])
+                if p == "Ok":
+                    return ("okv", args[0] if args else None)
+                if p == "Err":
+                    return ("err", args[0] if args else None)
                 if p.startswith("Self::") or (self.rel, p) in self.prog.fns:
                     q = p.replace("Self::", "")
                     cands = [qq for (r, qq) in self.prog.fns if r == self.rel and (qq == q or qq.endswith("::" + q))]
@@ -700,6 +801,93 @@ class RsInterp:
             hooked = self.mcall_hook(recv, m, args, env, e)
             if hooked is not NotImplemented:
                 return hooked
+            if recv == "SELF":
+                cands = [qq for (r, qq) in self.prog.fns if r == self.rel and qq.endswith("::" + m)]
+                if len(cands) == 1:
+                    return self.call(cands[0], args)
+                raise NotConst(f"self.{m}: {len(cands)} candidates")
+            if isinstance(recv, RsRef) and m not in ("get", "set"):
+                recv = recv.get()
+            if m in ("iter", "iter_mut", "into_iter", "clone", "cloned", "copied", "as_ref", "as_mut", "to_vec", "collect", "as_deref", "by_ref", "to_owned"):
+                return recv
+            if m == "enumerate":
+                return list(enumerate(recv))
+            if m == "rev":
+                return list(reversed(list(recv)))
+            if m in ("filter", "find", "position", "map", "any", "all", "is_some_and", "and_then", "or_else", "unwrap_or_else", "filter_map") and args and isinstance(args[0], tuple) and args[0] and args[0][0] == "closure":
+                clo = args[0]
+
+                def call_clo(*xs: Any) -> Any:
+                    _t, node, cenv = clo
+                    env2 = dict(cenv)
+                    for ppat, x in zip(node["params"], xs):
+                        if not self.bind(ppat, x, env2):
+                            raise NotConst("closure parameter pattern")
+                    try:
+                        return self.ev(node["body"], env2)
+                    except _RsReturn as r:
+                        return r.v
+                if m == "filter":
+                    return [x for x in recv if call_clo(x)]
+                if m == "find":
+                    for x in recv:
+                        if call_clo(x):
+                            return ("some", x)
+                    return None
+                if m == "position":
+                    for i_, x in enumerate(recv):
+                        if call_clo(x):
+                            return ("some", i_)
+                    return None
+                if m == "any":
+                    return any(call_clo(x) for x in recv)
+                if m == "all":
+                    return all(call_clo(x) for x in recv)
+                if m == "map":
+                    if recv is None:
+                        return None
+                    if isinstance(recv, tuple) and recv and recv[0] == "some":
+                        return ("some", call_clo(recv[1]))
+                    if isinstance(recv, tuple) and recv and recv[0] in ("okv", "err"):
+                        return ("okv", call_clo(recv[1])) if recv[0] == "okv" else recv
+                    return [call_clo(x) for x in recv]
+                if m == "is_some_and":
+                    return recv is not None and bool(call_clo(recv[1] if isinstance(recv, tuple) and recv[0] == "some" else recv))
+                if m == "and_then":
+                    return None if recv is None else call_clo(recv[1] if isinstance(recv, tuple) and recv[0] == "some" else recv)
+                if m == "or_else":
+                    return recv if recv is not None else call_clo()
+                if m == "unwrap_or_else":
+                    return call_clo() if recv is None else (recv[1] if isinstance(recv, tuple) and recv[0] == "some" else recv)
+            if m == "count":
+                return len(list(recv))
+            if m == "len":
+                return len(recv)
+            if m == "first":
+                return ("some", recv[0]) if recv else None
+            if m == "is_none":
+                return recv is None
+            if m == "is_some":
+                return recv is not None
+            if m == "is_empty":
+                return len(recv) == 0
+            if m == "contains" and isinstance(recv, (list, tuple)):
+                return args[0] in recv
+            if m == "ok_or":
+                return ("err", args[0]) if recv is None else ("okv", recv[1] if isinstance(recv, tuple) and recv and recv[0] == "some" else recv)
+            if m == "or":
+                return recv if recv is not None else args[0]
+            if m == "unwrap":
+                if recv is None or (isinstance(recv, tuple) and recv and recv[0] == "err"):
+                    raise NotConst("unwrap on None/Err")
+                return recv[1] if isinstance(recv, tuple) and recv and recv[0] in ("some", "okv") else recv
+            if m in ("saturating_mul", "wrapping_mul"):
+                return recv * args[0]
+            if m == "wrapping_add_signed":
+                return recv + args[0]
+            if m == "push" and isinstance(recv, list):
+                recv.append(args[0])
+                return None
             if m in ("wrapping_add", "saturating_add"):
                 return recv + args[0]
             if m == "wrapping_sub":
@@ -725,7 +913,9 @@ class RsInterp:
             v = self.ev(e["e"], env)
             if v is None:
                 raise _RsReturn(None)
-            return v[1] if isinstance(v, tuple) and v and v[0] == "some" else v
+            if isinstance(v, tuple) and v and v[0] == "err":
+                raise _RsReturn(v)
+            return v[1] if isinstance(v, tuple) and v and v[0] in ("some", "okv") else v
         if k == "struct_lit":
             d = {"__struct__": e["p"].split("::")[-1]}
             for f in e["fields"]:
@@ -740,6 +930,32 @@ class RsInterp:
             raise NotConst("field access")
         if k == "assign" and e["l"].get("k") == "path":
             env[e["l"]["p"]] = self.ev(e["r"], env)
+            return None
+        if k == "assign" and e["l"].get("k") == "field":
+            box = self.ev(e["l"]["e"], env)
+            if isinstance(box, RsRef):
+                box = box.get()
+            if not isinstance(box, dict):
+                raise NotConst("field store on non-struct")
+            box[e["l"]["name"]] = self.ev(e["r"], env)
+            return None
+        if k == "assign" and e["l"].get("k") == "unary" and e["l"]["op"] == "*":
+            ref = self.ev(e["l"]["e"], env)
+            if not isinstance(ref, RsRef):
+                raise NotConst("store through a non-reference")
+            ref.set(self.ev(e["r"], env))
+            return None
+        if k == "assign" and e["l"].get("k") == "index":
+            box = self.ev(e["l"]["e"], env)
+            box[self.ev(e["l"]["i"], env)] = self.ev(e["r"], env)
+            return None
+        if k == "opassign" and e["l"].get("k") == "field":
+            box = self.ev(e["l"]["e"], env)
+            if isinstance(box, RsRef):
+                box = box.get()
+            a, b = box[e["l"]["name"]], self.ev(e["r"], env)
+            box[e["l"]["name"]] = {"+": lambda: a + b, "-": lambda: a - b, "&": lambda: a & b, "|": lambda: a | b, "^": lambda: a ^ b,
+                                   "<<": lambda: a << b, ">>": lambda: a >> b, "*": lambda: a * b}[e["op"]]()
             return None
         if k == "opassign" and e["l"].get("k") == "path":
             a, b = env[e["l"]["p"]], self.ev(e["r"], env)
